@@ -80,7 +80,7 @@ PROPS["C17"] = {
     "engine": "systemd", "level": "exploration", "evaluations": ["patterns_lists"],
     "rule": "one evaluation = one list of exclude patterns pushed through the real build_service_text and decoded back; exhaustive over every Unicode scalar value except NUL as a one-character pattern and over every pair (thorough: triple) of 44 syntax-relevant characters, plus seeded random strings and lists of 1-4 patterns; "
             "distinct = distinct pattern lists (every case differs from the identity encoding in at least the surrounding line, so all are non-trivial)",
-    "floors": {"quick": {"single_scalar_values": 1112063, "syntax_pairs": 1900}, "thorough": {"single_scalar_values": 1112063, "syntax_triples": 85000}},
+    "floors": {"quick": {"single_scalar_values": 1112063, "syntax_pairs": 1900, "long_pattern_lists": 1000}, "thorough": {"single_scalar_values": 1112063, "syntax_triples": 85000, "long_pattern_lists": 50000}},
     "assumptions": ["the decoder implements systemd's documented rules (word splitting on space/tab/newline/CR, quotes anywhere in a word, C unescaping with unknown escapes kept, %% and % specifiers, $$ / ${VAR} / whole-word $VAR against an empty environment)",
                     "the ';' command-separator rule is not modelled (not among the rules the property enumerates)"],
     "level_text": "Independent decoder of systemd's ExecStart rules applied to the text the real code generates; exact argv comparison, byte for byte. Exhaustive on single scalar values and on pairs of syntax-relevant characters, sampled beyond.",
@@ -93,8 +93,8 @@ PROPS["C18"] = {
     "engine": "wire", "level": "exploration", "evaluations": ["batches"],
     "rule": "one evaluation = one batch of events written by the real DevInputWriter into a pipe (bytes compared with records built from libc::input_event), then decoded back by the real DevInputReader twice: the writer's own bytes, and the same key records with foreign records "
             "(value 2, EV_MSC, EV_SYN, EV_REL, EV_LED, EV_REP, unknown codes, odd values) interleaved; exhaustive over all key codes x {press, release} alone and paired with a neighbour, plus the empty batch and seeded random batches of up to 2000 events; distinct = distinct batches",
-    "floors": {"quick": {"exhaustive_single": 968, "foreign_records_interleaved": 10000, "codes_matched_against_kernel_header": 300},
-               "thorough": {"exhaustive_single": 968, "foreign_records_interleaved": 100000, "codes_matched_against_kernel_header": 300}},
+    "floors": {"quick": {"exhaustive_single": 968, "every_length_0_to_2100": 2101, "foreign_records_interleaved": 10000, "codes_matched_against_kernel_header": 300},
+               "thorough": {"exhaustive_single": 968, "every_length_0_to_2100": 2101, "foreign_records_interleaved": 100000, "codes_matched_against_kernel_header": 300}},
     "assumptions": ["a pipe stands in for /dev/uinput and for the evdev node (no ioctl is involved in send/next)", "struct layout taken from the libc crate for this target"],
     "level_text": "Byte oracle from libc::input_event on everything the real writer emits, decode-back through the real reader, exhaustive over the 484 key codes, sampled over batch shapes and interleavings.",
     "level_note": "Trusted: libc's struct input_event, the verif_from_fd constructor hook, the transcription of kernel key codes from the uinput-sys crate used to cross-check the numeric codes.",
@@ -120,7 +120,7 @@ PROPS["C14"] = {
     "engine": "load", "level": "exploration", "evaluations": ["inputs"],
     "rule": "one evaluation = one input written to a file and loaded with the real load_layout_from_file under catch_unwind (structure-aware mutations of the corpus layouts and of generated valid programs, arbitrary JSON values over the layout vocabulary, raw byte strings: random, truncated, flipped, BOM, deep nesting, out-of-range numbers, duplicate object keys); "
             "every accepted layout is installed with Mapper::for_layout and driven with a random ill-formed history plus release_all, again under catch_unwind; distinct_nontrivial = distinct accepted layouts + distinct rejection-message classes",
-    "floors": {"quick": {"accepted": 50000, "rejected": 50000, "accepted_mutated_corpus": 10000, "accepted_mutated_program": 10000, "steps_driven": 1000000},
+    "floors": {"quick": {"accepted": 50000, "rejected": 50000, "accepted_mutated_corpus": 10000, "accepted_mutated_program": 10000, "inputs_stuffed_row_mapping": 5000, "steps_driven": 1000000},
                "thorough": {"accepted": 500000, "rejected": 500000, "steps_driven": 10000000}},
     "assumptions": ["panics are observed with catch_unwind (the harness is built with panic=unwind, overflow checks and debug assertions on); a process death by signal (stack overflow, abort) is reported by the driver with the last input as witness",
                     "only the mapper is driven, not the event loop (a negative delay_ms makes the loop's Instant arithmetic panic; outside the property as stated)"],
@@ -134,7 +134,7 @@ PROPS["C15"] = {
     "engine": "roundtrip", "level": "exploration", "evaluations": ["layouts_round_tripped"],
     "rule": "one evaluation = one basic layout written by the real write_layout_to_global_config to /etc/totalmapper.json (a tmpfs mounted over /etc in a private mount namespace) and read back by the real load_layout_from_file; mappings must be equal, in order; "
             "exhaustive over the key codes (each as trigger, output, repeat key and absorbed modifier), plus the converter's output for the corpus and for generated shorthand programs, plus random basic layouts over all key codes with empty outputs, 0-3 key chords and extreme i32 repeat parameters; distinct = distinct layouts",
-    "floors": {"quick": {"per_key_code": 484, "converted_programs": 40000, "random_basic_layouts": 40000, "mappings_with_absorbing": 10000, "special_with_empty_chord": 1000, "ran_in_private_namespace": 16},
+    "floors": {"quick": {"per_key_code": 484, "converted_programs": 40000, "random_basic_layouts": 40000, "mappings_with_absorbing": 10000, "special_with_empty_chord": 1000, "big_layouts": 16, "ran_in_private_namespace": 16},
                "thorough": {"per_key_code": 484, "converted_programs": 600000, "random_basic_layouts": 600000, "ran_in_private_namespace": 16}},
     "assumptions": ["a tmpfs over /etc in a private mount namespace stands in for the real /etc (if the namespace cannot be created the same serialiser is used through a temp file and the evidence says so; the floor then fails)"],
     "level_text": "End-to-end differential on the real save and load code paths, exhaustive over the 484 key codes, sampled over layouts.",
@@ -179,20 +179,20 @@ NOT_APPLICABLE = [
 
 # antecedent counters whose floors are measured by lib/measure_floors.py (one tenth of the minimum over several seeds)
 ANTECEDENTS = {
-    "C01": ["c01_rest_after_firing", "rest_points", "release_all_calls", "exhaustive_layouts_completed", "exhaustive_transitions", "distinct_nontrivial"],
-    "C02": ["exhaustive_layouts_completed", "exhaustive_transitions", "c02_steps_mapping_and_passthrough", "c02_firings_while_other_in_effect", "c02_acted_releases", "distinct_nontrivial"],
-    "C03": ["exhaustive_layouts_completed", "exhaustive_transitions", "c03_presses_with_2plus_candidates", "c03_presses_with_mapping_in_effect", "c03_marker_checks", "c03_presses_mentioned_by_mapping_in_effect", "distinct_nontrivial"],
-    "C04": ["exhaustive_layouts_completed", "exhaustive_transitions", "c04_instants", "c04_instants_with_modifier_carrying_mapping_in_effect", "distinct_nontrivial"],
-    "C05": ["exhaustive_layouts_completed", "exhaustive_transitions", "c05a_foreign_presses_with_mapping_in_effect", "c05b_empty_layout_steps", "c05c_releases_with_2plus_mappings_in_effect", "c05d_obligations", "c05d_obligations_during_firing", "distinct_nontrivial"],
-    "C06": ["exhaustive_layouts_completed", "exhaustive_transitions", "c06_reset_points_with_residual_state", "c06_release_all_with_mapping_in_effect", "c06_probes", "distinct_nontrivial"],
-    "C07": ["exhaustive_layouts_completed", "exhaustive_transitions", "c07_norepeat_firings_with_action_key_down_before", "c07_watched_followup_steps", "distinct_nontrivial"],
-    "C08": ["exhaustive_layouts_completed", "exhaustive_transitions", "c08_presses_of_other_key_while_armed", "c08_trigger_pressed_again_first", "c08_counts_again_checks", "c08_dup_press_of_absorbed_modifier", "distinct_nontrivial"],
-    "C09": ["exhaustive_layouts_completed", "exhaustive_transitions", "c09_special_firings", "c09_ignored_events_while_repeat_pending", "c09_acted_events_while_repeat_pending", "distinct_nontrivial"],
-    "C19": ["exhaustive_layouts_completed", "exhaustive_transitions", "c19_steps_with_shared_output_in_effect", "release_all_calls", "distinct_nontrivial"],
-    "C10": ["wakeups_with_2plus_events", "wakeups_both_devices", "spurious_timeouts", "interruptions", "end_keyboard", "end_tablet", "metamorphic_runs", "distinct_nontrivial"],
-    "C11": ["ticks", "firings_with_3plus_ticks", "ticks_with_chord_key_held", "ticks_after_ignored_event", "cancellations_by_other_key", "catchup_polls", "real_clock_timed_polls", "distinct_nontrivial"],
-    "C12": ["tablet_on", "tablet_on_with_keys_held", "tablet_on_with_repeat_pending", "tablet_repeated", "kb_events_in_tablet_mode", "post_off_steps", "tablet_and_keyboard_same_wakeup", "distinct_nontrivial"],
-    "C20": ["fault_runs", "faults_at_send", "faults_at_poll", "faults_at_next_keyboard", "faults_at_next_tablet", "faults_at_register_poll", "distinct_nontrivial"],
+    "C01": ["wide_layouts", "layouts_genD", "c01_rest_after_firing", "rest_points", "release_all_calls", "exhaustive_layouts_completed", "exhaustive_transitions", "distinct_nontrivial"],
+    "C02": ["wide_layouts", "layouts_genD", "exhaustive_layouts_completed", "exhaustive_transitions", "c02_steps_mapping_and_passthrough", "c02_firings_while_other_in_effect", "c02_acted_releases", "distinct_nontrivial"],
+    "C03": ["wide_layouts", "layouts_genD", "exhaustive_layouts_completed", "exhaustive_transitions", "c03_presses_with_2plus_candidates", "c03_presses_with_mapping_in_effect", "c03_marker_checks", "c03_presses_mentioned_by_mapping_in_effect", "distinct_nontrivial"],
+    "C04": ["wide_layouts", "layouts_genD", "exhaustive_layouts_completed", "exhaustive_transitions", "c04_instants", "c04_instants_with_modifier_carrying_mapping_in_effect", "distinct_nontrivial"],
+    "C05": ["wide_layouts", "layouts_genD", "exhaustive_layouts_completed", "exhaustive_transitions", "c05a_foreign_presses_with_mapping_in_effect", "c05b_empty_layout_steps", "c05c_releases_with_2plus_mappings_in_effect", "c05d_obligations", "c05d_obligations_during_firing", "distinct_nontrivial"],
+    "C06": ["wide_layouts", "layouts_genD", "exhaustive_layouts_completed", "exhaustive_transitions", "c06_reset_points_with_residual_state", "c06_release_all_with_mapping_in_effect", "c06_probes", "distinct_nontrivial"],
+    "C07": ["wide_layouts", "layouts_genD", "exhaustive_layouts_completed", "exhaustive_transitions", "c07_norepeat_firings_with_action_key_down_before", "c07_watched_followup_steps", "distinct_nontrivial"],
+    "C08": ["wide_layouts", "layouts_genD", "exhaustive_layouts_completed", "exhaustive_transitions", "c08_presses_of_other_key_while_armed", "c08_trigger_pressed_again_first", "c08_counts_again_checks", "c08_dup_press_of_absorbed_modifier", "distinct_nontrivial"],
+    "C09": ["wide_layouts", "layouts_genD", "exhaustive_layouts_completed", "exhaustive_transitions", "c09_special_firings", "c09_ignored_events_while_repeat_pending", "c09_acted_events_while_repeat_pending", "distinct_nontrivial"],
+    "C19": ["wide_layouts", "layouts_genD", "exhaustive_layouts_completed", "exhaustive_transitions", "c19_steps_with_shared_output_in_effect", "release_all_calls", "distinct_nontrivial"],
+    "C10": ["flood_histories", "wide_histories", "schedules_with_a_stall", "wakeups_with_2plus_events", "wakeups_both_devices", "spurious_timeouts", "interruptions", "end_keyboard", "end_tablet", "metamorphic_runs", "distinct_nontrivial"],
+    "C11": ["wide_histories", "schedules_with_a_stall", "ticks", "firings_with_3plus_ticks", "ticks_with_chord_key_held", "ticks_after_ignored_event", "cancellations_by_other_key", "catchup_polls", "real_clock_timed_polls", "distinct_nontrivial"],
+    "C12": ["wide_histories", "schedules_with_a_stall", "tablet_on", "tablet_on_with_keys_held", "tablet_on_with_repeat_pending", "tablet_repeated", "kb_events_in_tablet_mode", "post_off_steps", "tablet_and_keyboard_same_wakeup", "distinct_nontrivial"],
+    "C20": ["wide_histories", "fault_runs", "faults_at_send", "faults_at_poll", "faults_at_next_keyboard", "faults_at_next_tablet", "faults_at_register_poll", "distinct_nontrivial"],
 }
 
 import json as _json, os as _os
